@@ -371,6 +371,7 @@ fn construct(c: &Case) -> Option<Obj> {
 /// one run of the case with a panic injected at the `target`-th user call (0 = never).
 /// Returns (ticks made, site that fired, first problem)
 fn run(case: &Case, target: u64) -> (u64, Option<&'static str>, Option<String>, Option<String>) {
+    release_quarantine();
     reset_tracking();
     TICKS.with(|c| c.set(0));
     TARGET.with(|c| c.set(target));
@@ -508,7 +509,10 @@ fn main() {
         }
         let mut fired = 0u64;
         let mut sites: std::collections::BTreeMap<&'static str, u64> = Default::default();
-        for i in 1..=n {
+        // `stride=K` in the case header: inject at every K-th call only (long soak scripts)
+        let stride = num(case, "stride").max(1) as u64;
+        let first = 1 + (num(case, "phase") as u64 % stride);
+        for i in (first..=n).step_by(stride as usize) {
             let (_, site, problem, inj) = run(case, i);
             if let Some(r) = inj {
                 if let Some(rest) = r.strip_prefix("C ") {
